@@ -763,6 +763,311 @@ def split_tuple_locals(raw):
     return n
 
 
+# ---------------------------------------------------------------------------------------------------------------------
+# unrolling of loops over a handful of statically known items (`for (off, v) in [(488, a), (492, b)]`, `for i in 0..3`)
+
+def _single_assign(body, l):
+    ds = [(bi, s_) for bi, b_ in enumerate(body["blocks"]) for s_ in b_["stmts"] if s_["k"] == "Assign" and s_["p"]["l"] == l and not s_["p"]["proj"]]
+    cs = [(bi, b_["term"]) for bi, b_ in enumerate(body["blocks"]) if b_["term"]["k"] == "Call" and b_["term"]["dest"]["l"] == l and not b_["term"]["dest"]["proj"]]
+    return ds, cs
+
+
+def _array_len(ty):
+    import re as _re
+    m = _re.match(r"^\[(.+); (\d+)(?:_usize)?\]$", ty.strip())
+    return int(m.group(2)) if m else None
+
+
+def _iter_items(body, l, depth=0):
+    """what the iterator held in local l yields, as a list of ('op', operand) | ('ref', place) | ('tuple', [items]) - or None"""
+    if depth > 6:
+        return None
+    ds, cs = _single_assign(body, l)
+    if len(ds) + len(cs) != 1:
+        return None
+    L = body["locals"]
+    if cs:
+        t = cs[0][1]
+        nm = strip_generics(t.get("callee") or "")
+        a = t["args"]
+        if nm.endswith(("IntoIterator::into_iter",)) and len(a) == 1 and a[0].get("k") in ("move", "copy") and not a[0]["p"]["proj"]:
+            src = a[0]["p"]["l"]
+            n = _array_len(L[src]["ty"])
+            if n is not None:
+                for _k in range(4):
+                    sd, sc = _single_assign(body, src)
+                    if len(sd) != 1 or sc:
+                        return None
+                    rv_ = sd[0][1]["rv"]
+                    if rv_["k"] == "Aggregate" and rv_["agg"] == "Array" and len(rv_["ops"]) == n:
+                        return [("op", dict(o, k="copy") if o.get("k") == "move" else o) for o in rv_["ops"]]
+                    if rv_["k"] == "Use" and rv_["op"].get("k") in ("move", "copy") and not rv_["op"]["p"]["proj"]:
+                        src = rv_["op"]["p"]["l"]           # a copy of the array
+                        continue
+                    return None
+                return None
+            return _iter_items(body, src, depth + 1)
+        if nm.split("::")[-1] in ("iter", "iter_mut") and "slice" in nm and len(a) == 1 and a[0].get("k") in ("move", "copy") and not a[0]["p"]["proj"]:
+            # the slice is a whole array behind a reference (through the unsizing cast)
+            r = a[0]["p"]["l"]
+            for _k in range(4):
+                rd, rc = _single_assign(body, r)
+                if len(rd) != 1 or rc:
+                    return None
+                rv = rd[0][1]["rv"]
+                if rv["k"] == "Cast" and rv["op"].get("k") in ("move", "copy") and not rv["op"]["p"]["proj"]:
+                    r = rv["op"]["p"]["l"]
+                    continue
+                if rv["k"] == "Use" and rv["op"].get("k") in ("move", "copy") and not rv["op"]["p"]["proj"]:
+                    r = rv["op"]["p"]["l"]
+                    continue
+                if rv["k"] == "Ref" and not rv["p"]["proj"]:
+                    n = _array_len(L[rv["p"]["l"]]["ty"])
+                    if n is None:
+                        return None
+                    return [("ref", {"l": rv["p"]["l"], "proj": [["cidx", k, k + 1, False]]}, bool(rv.get("mut"))) for k in range(n)]
+                return None
+            return None
+        if nm.endswith("Iterator::enumerate") and len(a) == 1 and a[0].get("k") in ("move", "copy") and not a[0]["p"]["proj"]:
+            inner = _iter_items(body, a[0]["p"]["l"], depth + 1)
+            if inner is None:
+                return None
+            return [("tuple", [("op", {"k": "const", "ty": "usize", "tag": "usize", "val": k}), it]) for k, it in enumerate(inner)]
+        return None
+    rv = ds[0][1]["rv"]
+    if rv["k"] == "Use" and rv["op"].get("k") in ("move", "copy") and not rv["op"]["p"]["proj"]:
+        return _iter_items(body, rv["op"]["p"]["l"], depth + 1)
+    if rv["k"] == "Aggregate" and rv.get("agg") == "Adt" and (rv.get("adt") or "").endswith(("ops::Range", "ops::range::Range")) and len(rv["ops"]) == 2:
+        lo, hi = rv["ops"]
+        if lo.get("k") == "const" and hi.get("k") == "const" and isinstance(lo.get("val"), int) and isinstance(hi.get("val"), int):
+            return [("op", dict(lo, val=v)) for v in range(lo["val"], hi["val"])]
+    return None
+
+
+def _mentions(x, acc):
+    if isinstance(x, dict):
+        if isinstance(x.get("l"), int) and ("proj" in x or x.get("k") in ("StorageLive", "StorageDead")):
+            acc.add(x["l"])
+        if "proj" in x and isinstance(x["proj"], list):
+            for e in x["proj"]:
+                if e and e[0] == "index":
+                    acc.add(e[1])
+        for k_, v in x.items():
+            if k_ not in ("sp", "fn_sp"):
+                _mentions(v, acc)
+    elif isinstance(x, list):
+        for v in x:
+            _mentions(v, acc)
+
+
+def _succs(t):
+    k = t["k"]
+    if k == "Goto":
+        return [t["target"]]
+    if k == "SwitchInt":
+        return [b for _v, b in t["targets"]] + [t["otherwise"]]
+    if k in ("Call", "Assert", "Drop"):
+        return [t["target"]] if t.get("target") is not None else []
+    return []
+
+
+def unroll_small_loops(raw, max_items=8):
+    """`for x in <2..8 statically known items> { body }` becomes body; body; ..: the items are the elements of an array
+    built on the spot, of an array iterated by reference (optionally enumerated), or of a constant integer range.  Locals
+    that live inside one iteration get a copy per iteration, so each copy reads like the straight-line code it stands for."""
+    total = 0
+    for body in raw["bodies"]:
+        B = body["blocks"]
+        done = True
+        for hi in range(len(B)):
+            t = B[hi]["term"]
+            if t["k"] != "Call" or not strip_generics(t.get("callee") or "").endswith("Iterator::next") or t.get("target") is None or t["dest"]["proj"]:
+                continue
+            if B[hi].get("cleanup") or B[hi].get("unrolled") or len(t["args"]) != 1:
+                continue
+            ti = t["target"]
+            T = B[ti]
+            if T["term"]["k"] != "SwitchInt":
+                continue
+            dst = t["dest"]["l"]
+            disc = [s_ for s_ in T["stmts"] if s_["k"] == "Assign" and s_["rv"]["k"] == "Discriminant" and s_["rv"]["p"]["l"] == dst and not s_["rv"]["p"]["proj"]]
+            if len(disc) != 1:
+                continue
+            tt = T["term"]
+            tmap = dict((v, b_) for v, b_ in tt["targets"])
+            some_t = tmap.get(1, tt["otherwise"])
+            none_t = tmap.get(0, tt["otherwise"])
+            if some_t == none_t:
+                continue
+            # the iterator local behind the &mut handed to next()
+            a0 = t["args"][0]
+            if a0.get("k") not in ("move", "copy") or a0["p"]["proj"]:
+                continue
+            itl = None
+            cur_ = a0["p"]["l"]
+            for _k in range(4):
+                rd, rc = _single_assign(body, cur_)
+                if not rd or rc or not all(x[1]["rv"]["k"] == "Ref" and x[1]["rv"]["p"]["proj"] in ([], [["deref"]]) for x in rd) or len({(x[1]["rv"]["p"]["l"], len(x[1]["rv"]["p"]["proj"])) for x in rd}) != 1:
+                    break
+                base_ = rd[0][1]["rv"]["p"]["l"]
+                if rd[0][1]["rv"]["p"]["proj"] or body["locals"][base_]["ty"].startswith("&"):
+                    cur_ = base_                    # a re-borrow `&mut *r` / a reference to a reference: keep looking
+                    continue
+                itl = base_
+                break
+            if itl is None:
+                continue
+            items = _iter_items(body, itl)
+            if items is None or not (2 <= len(items) <= max_items):
+                continue
+            # loop body: blocks reachable from the Some target that can get back to the header
+            fwd, work = set(), [some_t]
+            while work:
+                x = work.pop()
+                if x in fwd or x == hi:
+                    continue
+                fwd.add(x)
+                work += _succs(B[x]["term"])
+            back = {hi}
+            changed = True
+            while changed:
+                changed = False
+                for x in fwd:
+                    if x not in back and any(s_ in back for s_ in _succs(B[x]["term"])):
+                        back.add(x)
+                        changed = True
+            Lp = (fwd & back) | {hi, ti}
+            if any(B[x].get("cleanup") for x in Lp) or len(Lp) * (len(items) + 1) > 600:
+                continue
+            # the iterator must not be touched inside the loop other than by this next()
+            m_it = set()
+            for x in Lp:
+                acc = set()
+                _mentions(B[x]["stmts"], acc)
+                if x != hi:
+                    _mentions(B[x]["term"], acc)
+                m_it |= acc
+            if itl in m_it - set():
+                # allowed: the `&mut it` temp definitions in the header
+                others = [x for x in Lp if x != hi and itl in (lambda a_: (_mentions(B[x], a_), a_)[1])(set())]
+                if others:
+                    continue
+            # iteration-local locals: every mention inside the loop
+            inside, outside = set(), set()
+            for bi_, b_ in enumerate(B):
+                acc = set()
+                # (StorageLive / StorageDead markers outside the loop do not make a temporary loop-carried)
+                _mentions([s_ for s_ in b_["stmts"] if s_["k"] not in ("StorageLive", "StorageDead")], acc)
+                _mentions(b_["term"], acc)
+                (inside if bi_ in Lp else outside).update(acc)
+            local_only = {l_ for l_ in inside - outside if l_ > body["arg_count"]}
+            # build the copies
+            order = sorted(Lp)
+            entries = []
+            for k in range(len(items) + 1):
+                bmap = {x: len(B) + i_ for i_, x in enumerate(order)}
+                lmap = {}
+                for l_ in sorted(local_only):
+                    lmap[l_] = len(body["locals"])
+                    body["locals"].append(copy.deepcopy(body["locals"][l_]))
+                newblocks = []
+                for x in order:
+                    nb = copy.deepcopy(B[x])
+                    nb["unrolled"] = True
+                    _remap_sel(nb, lmap, bmap, hi)
+                    newblocks.append(nb)
+                B.extend(newblocks)
+                entries.append((bmap, lmap))
+            sp = t["sp"]
+            for k, (bmap, lmap) in enumerate(entries):
+                H = B[bmap[hi]]
+                Tk = B[bmap[ti]]
+                d_l = lmap.get(dst, dst)
+                if k < len(items):
+                    st = []
+                    val = _emit_item(body, items[k], st, sp)
+                    st.append(_assign(_place(d_l), _adt_agg(OPT, 1, [val]), sp))
+                    H["stmts"] = H["stmts"] + st
+                    H["term"] = _goto(bmap[ti], sp)
+                    Tk["term"] = _goto(bmap.get(some_t, some_t), sp)
+                    # back edges of this copy lead to the next copy's header
+                    nxt_h = entries[k + 1][0][hi]
+                    for x in order:
+                        _retarget(B[bmap[x]]["term"], "HDR", nxt_h)
+                else:
+                    H["stmts"] = H["stmts"] + [_assign(_place(d_l), _adt_agg(OPT, 0, []), sp)]
+                    H["term"] = _goto(bmap[ti], sp)
+                    Tk["term"] = _goto(none_t, sp)
+            # entries into the loop go to the first copy
+            first = entries[0][0][hi]
+            for bi_, b_ in enumerate(B):
+                if bi_ in Lp or b_.get("unrolled"):
+                    continue
+                _retarget_exact(b_["term"], hi, first)
+            B[hi]["unrolled"] = True
+            total += 1
+    raw["_unrolled_loops"] = total
+    return total
+
+
+def _emit_item(body, it, st, sp):
+    """statements computing one item into a fresh local; -> operand"""
+    if it[0] == "op":
+        return copy.deepcopy(it[1])
+    L = body["locals"]
+    if it[0] == "ref":
+        l = len(L)
+        L.append({"ty": "&elem", "tag": "ref", "name": None})
+        st.append(_assign(_place(l), {"k": "Ref", "mut": bool(it[2]) if len(it) > 2 else False, "p": copy.deepcopy(it[1])}, sp))
+        return {"k": "move", "p": _place(l)}
+    if it[0] == "tuple":
+        ops = [_emit_item(body, x, st, sp) for x in it[1]]
+        l = len(L)
+        L.append({"ty": "(tuple)", "tag": "tuple", "name": None})
+        st.append(_assign(_place(l), {"k": "Aggregate", "agg": "Tuple", "ops": ops}, sp))
+        return {"k": "move", "p": _place(l)}
+    raise ValueError(it)
+
+
+def _remap_sel(x, lmap, bmap, hdr):
+    """in a copied block: rename iteration-local locals, redirect intra-loop edges to this copy (edges to the header are
+    marked for the caller)"""
+    if isinstance(x, dict):
+        if isinstance(x.get("l"), int) and ("proj" in x or x.get("k") in ("StorageLive", "StorageDead")) and x["l"] in lmap:
+            x["l"] = lmap[x["l"]]
+        if "proj" in x and isinstance(x["proj"], list):
+            for e in x["proj"]:
+                if e and e[0] == "index" and e[1] in lmap:
+                    e[1] = lmap[e[1]]
+        k = x.get("k")
+        if k in ("Goto", "Call", "Assert", "Drop"):
+            if isinstance(x.get("target"), int):
+                x["target"] = "HDR" if x["target"] == hdr else bmap.get(x["target"], x["target"])
+        if k == "SwitchInt":
+            x["targets"] = [[v, ("HDR" if b_ == hdr else bmap.get(b_, b_))] for v, b_ in x["targets"]]
+            x["otherwise"] = "HDR" if x["otherwise"] == hdr else bmap.get(x["otherwise"], x["otherwise"])
+        for key_, v in x.items():
+            if key_ in ("targets", "sp", "fn_sp"):
+                continue
+            _remap_sel(v, lmap, bmap, hdr)
+    elif isinstance(x, list):
+        for v in x:
+            _remap_sel(v, lmap, bmap, hdr)
+
+
+def _retarget(t, frm, to):
+    if t.get("target") == frm:
+        t["target"] = to
+    if t["k"] == "SwitchInt":
+        t["targets"] = [[v, (to if b_ == frm else b_)] for v, b_ in t["targets"]]
+        if t["otherwise"] == frm:
+            t["otherwise"] = to
+
+
+def _retarget_exact(t, frm, to):
+    _retarget(t, frm, to)
+
+
 def _clo_key(ty):
     if "{closure@" not in ty:
         return None
@@ -809,6 +1114,7 @@ def lower_adaptors(raw):
     raw["_lowered_sites"] = n
     inline_helpers(raw)
     thread_helper_results(raw)
+    unroll_small_loops(raw)
     split_tuple_locals(raw)
     raw["_inlined_closures"] = set(_INLINED)
     _mark_consumed(raw)
